@@ -682,6 +682,15 @@ def gen_histories(rng, tier):
                 lines.append("basins")
                 continue
             lines.append("update " + gen.hexes(gen.elevation(rng, g)))
+            if rng.random() < 0.25:
+                # the caller keeps the returned reference and passes it back, possibly after changing
+                # an operator parameter: the call must be recomputed with what is in force now
+                idx = [i for i, o in enumerate(ops_now) if o.startswith("multi")]
+                if idx and rng.random() < 0.6:
+                    p = hx(rng.choice([0.0, 0.5, 1.0, 2.0, 4.0]))
+                    lines.append("set_param %d %s" % (idx[0], p))
+                    ops_now[idx[0]] = "multi:" + p
+                lines.append("update_again")
             if rng.random() < 0.3:
                 lines.append("acc s " + hx(1.0))
         # final inputs
